@@ -441,14 +441,13 @@ def removal_binds_only_unused_full : Prop :=
   ∀ (s : AssignStmt) (u : String), Gen.removalGuard s u = true → s.topLevelOk = true → u ∈ s.bound →
     soleBinding s u = true
 
-/-- **removal_binds_only_unused_partial.** True for every assignment whose value (and subscript / attribute
-targets) contains no `:=` — chained assignments, tuple / list / starred / nested targets in any position:
-the guard admits none of them. -/
-theorem removal_binds_only_unused_partial (s : AssignStmt) (u : String) (hg : Gen.removalGuard s u = true)
-    (hw : s.topLevelOk = true) (hD : bindsInValue s = false) (hu : u ∈ s.bound) : soleBinding s u = true := by
-  have hv : s.valueBinds = [] := by
-    unfold bindsInValue at hD
-    simpa using hD
+/-- **removal_binds_only_unused (full strength, since 21e29d0).** Whenever the guard of
+`_check_function_unused_vars` (regenerated from the live source: `Gen.removalGuard`) lets the whole statement
+be deleted for the unused name `u`, the statement binds no other name: not through a chained, unpacking,
+starred or nested target, and not through a `:=` anywhere in it. -/
+theorem removal_binds_only_unused : removal_binds_only_unused_full := by
+  intro s u hg hw hu
+  have hv : s.valueBinds = [] := removalGuard_no_value_binds s u hg
   unfold soleBinding AssignStmt.bound at *
   rw [hv, List.append_nil] at hu ⊢
   apply List.all_eq_true.mpr
@@ -456,13 +455,22 @@ theorem removal_binds_only_unused_partial (s : AssignStmt) (u : String) (hg : Ge
   have := removalGuard_single_target_binding s u hg hw x hx u hu
   simp [this]
 
-/-- **Exception class `walrusInRemoved`.** `z = (y := a) + 1` with `y` unused: one plain target, so the
-guard holds — and the statement that goes also binds `z`. -/
-theorem walrusInRemoved_witness : ¬ removal_binds_only_unused_full := by
+/-- The same statement for the guard as it was before 21e29d0. -/
+def old_removal_binds_only_unused_full : Prop :=
+  ∀ (s : AssignStmt) (u : String), oldRemovalGuard s u = true → s.topLevelOk = true → u ∈ s.bound →
+    soleBinding s u = true
+
+/-- **Regression witness for the repaired class `walrusInRemoved`.** `z = (y := a) + 1` with `y` unused: one
+plain target, so the old guard held — and the statement that went also bound `z`. The live guard rejects it. -/
+theorem old_walrusInRemoved_witness : ¬ old_removal_binds_only_unused_full := by
   intro h
   have := h ⟨.cons (.name "z") .nil, ["y"]⟩ "y" (by decide) (by decide) (by decide)
   revert this
   decide
+
+theorem walrusInRemoved_repaired_on_witness :
+    Gen.removalGuard ⟨.cons (.name "z") .nil, ["y"]⟩ "y" = false ∧
+    Gen.removalGuard ⟨.cons (.name "u") .nil, ["v"]⟩ "u" = false := by decide
 
 /-- The guard rejects what the seeded variants of it admitted: a chained assignment whose first target is
 the unused name, and unpacking targets. -/
